@@ -124,6 +124,9 @@ func (p *protocolAdaptor) serverGetProtocolInitializer() (protocolInitializer, e
 // handleShareMemoryByFilePath
 func handleShareMemoryByFilePath(s *Session, hdr header) error {
 	s.logger.infof("handleShareMemoryMetadata head:%+v", hdr)
+	if err := checkShmMetadataLength(hdr); err != nil {
+		return err
+	}
 	body := make([]byte, hdr.Length()-headerSize)
 	err := blockReadFull(s.connFd, body)
 	if err != nil {
@@ -133,7 +136,10 @@ func handleShareMemoryByFilePath(s *Session, hdr header) error {
 		}
 		return err
 	}
-	bufferPath, queuePath := s.extractShmMetadata(body)
+	bufferPath, queuePath, err := s.extractShmMetadata(body)
+	if err != nil {
+		return err
+	}
 	qm, err := mappingQueueManager(queuePath)
 	if err != nil {
 		return fmt.Errorf("handleShareMemoryByFilePath mappingQueueManager failed,queuePathLen:%d path:%s err=%s",
@@ -154,14 +160,17 @@ func handleShareMemoryByFilePath(s *Session, hdr header) error {
 
 // todo with stream'timeout
 func handleFallbackData(s *Session, h header, buf []byte) (int, bool, error) {
+	const fallbackDataHeader = 8
 	eventLen := int(h.Length())
+	if eventLen < headerSize+fallbackDataHeader {
+		return 0, false, fmt.Errorf("invalid fallback data event, length:%d", eventLen)
+	}
 	payloadLen := eventLen - headerSize
 	if len(buf) < payloadLen {
 		return 0, true, nil
 	}
 	data := make([]byte, payloadLen)
 	copy(data, buf[:payloadLen])
-	const fallbackDataHeader = 8
 	// fallback data layout:  eventHeader | seqID | status | payload
 	seqID := binary.BigEndian.Uint32(data[:4])
 	// now the first byte of status is streamState, and the other byte of status is undefined .
@@ -179,6 +188,14 @@ func handleFallbackData(s *Session, h header, buf []byte) (int, bool, error) {
 	return eventLen, false, s.handleStreamMessage(stream, bufferSliceWrapper{fallbackSlice: fallbackSlice}, streamState(status))
 }
 
+// the metadata event carries two paths, each with a 2-byte length
+func checkShmMetadataLength(h header) error {
+	if h.Length() < headerSize+4 || h.Length() > headerSize+4+2*fileNameMaxLen {
+		return fmt.Errorf("invalid share memory metadata event, length:%d", h.Length())
+	}
+	return nil
+}
+
 func handleExchangeVersion(s *Session, h header) error {
 	respHeader := header(make([]byte, headerSize))
 	respHeader.encode(headerSize, maxSupportProtoVersion, typeExchangeProtoVersion)
@@ -191,12 +208,18 @@ func handleShareMemoryByMemFd(s *Session, h header) error {
 	s.logger.infof("recv memfd, header:%s", h.String())
 
 	//1.recv shm metadata
+	if err := checkShmMetadataLength(h); err != nil {
+		return err
+	}
 	body := make([]byte, h.Length()-headerSize)
 	err := blockReadFull(s.connFd, body)
 	if err != nil {
 		return errors.New("read shm metadata failed,reason:" + err.Error())
 	}
-	bufferPath, queuePath := s.extractShmMetadata(body)
+	bufferPath, queuePath, err := s.extractShmMetadata(body)
+	if err != nil {
+		return err
+	}
 
 	//2.send AckReadyRecvFD
 	ack := header(make([]byte, headerSize))
@@ -294,6 +317,9 @@ func handleHotRestart(s *Session, hdr header, buf []byte) (int, bool, error) {
 	if len(buf) < epochIDLen {
 		return 0, true, nil
 	}
+	if s.manager == nil {
+		return 0, false, errors.New("unexpected hot restart event: the session has no session manager")
+	}
 	epochID := binary.BigEndian.Uint64(buf[:epochIDLen])
 	s.logger.warnf("%s [epoch:%d] receive hot restart", s.sessionName(), epochID)
 
@@ -307,6 +333,9 @@ func handleHotRestart(s *Session, hdr header, buf []byte) (int, bool, error) {
 func handleHotRestartAck(s *Session, hdr header, buf []byte) (int, bool, error) {
 	if len(buf) < epochIDLen {
 		return 0, true, nil
+	}
+	if s.listener == nil {
+		return 0, false, errors.New("unexpected hot restart ack event: the session has no listener")
 	}
 	epochID := binary.BigEndian.Uint64(buf[:epochIDLen])
 	s.logger.warnf("%s [epoch:%d] receive hot restart ack", s.name, epochID)
